@@ -112,7 +112,29 @@ def check(prog, rep):
     rep.saw("mutators", [m.qual for m, _d, _v in mutators])
     rep.saw("private helpers that edit the model", sorted(q for q, sm in summaries.items() if sm["writes"]))
 
+    from ..astutil import dominating_guards as _dg
     for m, ws, via in mutators:
+        # "nothing to do" shortcuts: an exit taken BEFORE the edit because the new value compares equal to the stored one.
+        # Equality of model content is not "the model is unchanged": leaves compare by name, interior nodes by identity
+        # -- the request to edit is dropped and the old model (and its caches) answer for the new one.
+        for r_ in walk_local(m.node, include_self=False):
+            if not isinstance(r_, ast.Return):
+                continue
+            for t_, pol_ in _dg(r_):
+                for cmp_ in [x_ for x_ in ast.walk(t_) if isinstance(x_, ast.Compare) and len(x_.ops) == 1 and isinstance(x_.ops[0], (ast.Eq, ast.NotEq))]:
+                    sides = [cmp_.left, cmp_.comparators[0]]
+                    fld = [x_ for x_ in sides if isinstance(x_, ast.Attribute) and dotted(x_.value) == "self" and x_.attr in model_attrs]
+                    if not fld or any(isinstance(x_, ast.Constant) for x_ in sides):
+                        continue
+                    ann_ = {a_.arg: (ast.unparse(a_.annotation) if a_.annotation is not None else "") for a_ in m.node.args.args}
+                    other = [x_ for x_ in sides if x_ is not fld[0]][0]
+                    root = other.id if isinstance(other, ast.Name) else None
+                    exprish = fld[0].attr in ("_objective",) or (root and any(k in ann_.get(root, "") for k in ("Expression", "Constraint", "Variable")))
+                    if exprish and any(a == fld[0].attr for a, _ in ws):
+                        rep.ob("R13.1", m.qual.split(":")[1], False,
+                               f"returns at line {r_.lineno} without editing the model when `{src(cmp_)}` holds: `==` on expressions is not content equality (a Variable / Parameter leaf compares by NAME -- another bound, domain or value does not make it unequal -- and interior nodes by identity), "
+                               f"so a different objective can be taken for the current one -- the edit is dropped and every later solve answers for the old model",
+                               loc=f"{m.module.rel}:{r_.lineno}", detail="skip-if-equal", robust=True)
         exits, ma = analyze(m.node.body, make_transfer(), frozenset({"clean"}), may_raise, implicit="before")
         bad_normal = [(k, n) for k, n, f in exits if k in ("return", "fall") and "clean" not in f]
         bad_raise = [(k, n) for k, n, f in exits if k in ("raise", "implicit-raise") and "clean" not in f]
